@@ -2,10 +2,10 @@ package symgo
 
 import (
 	"fmt"
-	"strings"
 	"go/token"
 	"go/types"
 	"slices"
+	"strings"
 
 	"golang.org/x/tools/go/ssa"
 )
@@ -685,31 +685,4 @@ func (in *Exec) doRecover(caller *frame) value {
 		}
 	}
 	return iface{}
-}
-
-// spawn runs a `go` statement: the goroutine body runs to completion at the spawn point (one legal schedule).
-func (in *Exec) spawn(caller *frame, pos token.Pos, fn value, args []value) {
-	in.goroutine++
-	in.gidNext++
-	in.gids = append(in.gids, in.gidNext)
-	defer func() { in.goroutine--; in.gids = in.gids[:len(in.gids)-1] }()
-	func() {
-		defer func() {
-			if r := recover(); r != nil {
-				if tp, ok := r.(targetPanic); ok {
-					// an uncaught panic in a goroutine crashes the process
-					panic(targetPanic{v: tp.v, site: tp.site + " (in goroutine)"})
-				}
-				if pa, ok := r.(pathAbort); ok && pa.kind == abBlocked {
-					// the spawned goroutine is parked where it blocks: the schedule in which it makes no further
-					// progress is a legal prefix; its effects so far stay
-					in.W.X.note("goroutine parked: " + pa.msg)
-					return
-				}
-				panic(r)
-			}
-		}()
-		// the goroutine has no caller frame for recover purposes
-		in.call(nil, pos, fn, args)
-	}()
 }
